@@ -305,6 +305,13 @@ func (m *Monitor) tcpIdle(now int64) {
 					t.ClosedAt = now
 					continue
 				}
+				if !m.serverClosed && !m.M.PossiblyAlive(a, now, now) && m.K.Parked() == 0 && !m.leakReported[fmt.Sprintf("peer-conn:%d", cid)] {
+					// (C15) an allocation that has ended owns nothing: its peer connections - pending or
+					// bound - went with it, whatever else its teardown ran into
+					m.leakReported[fmt.Sprintf("peer-conn:%d", cid)] = true
+					m.v([]string{"C15", "C16"}, "leak", kv("kind", "peer-conn"), "peer connection %d (%s, bound=%v) of the allocation of %s is still open at an idle point although that allocation has ended (%s)", cid, t.Peer, t.Bound, a.Client, a.EndCause)
+					continue
+				}
 				if !t.Bound && now > m.M.widen(t.Created.Hi+bindTimeoutNS)+1e6 && !m.unboundReported[t.CID] {
 					m.unboundReported[t.CID] = true
 					m.v([]string{"C16", "C15"}, "unbound-not-closed", nil, "peer connection %d (%s) was never bound and is still open %d ns after it was made", t.CID, t.Peer, now-t.Created.Hi)
